@@ -13,13 +13,13 @@ go test -vet=off -count=1 ./$PKG/ 2>&1 | tail -2; ET=${PIPESTATUS[0]}
 cp "$OUT/demo_test.go" "$WT/$PKG/zz_demo_test.go"
 echo "== demo with the change (must FAIL)"
 go test -vet=off -count=1 -run 'Demo|demo|Seed|C[0-9][0-9]' ./$PKG/ 2>&1 | tail -3; WITH=${PIPESTATUS[0]}
-git stash -q
+# (no git stash: the stash is shared by all worktrees of a repository)
+git apply -R "$OUT/patch.diff" || { echo "cannot revert patch"; exit 2; }
 cp "$OUT/demo_test.go" "$WT/$PKG/zz_demo_test.go"
 echo "== demo without the change (must PASS)"
 go test -vet=off -count=1 -run 'Demo|demo|Seed|C[0-9][0-9]' ./$PKG/ 2>&1 | tail -3; WITHOUT=${PIPESTATUS[0]}
 rm -f "$WT/$PKG/zz_demo_test.go"
-git stash pop -q
-rm -f "$WT/$PKG/zz_demo_test.go"
+git apply "$OUT/patch.diff"
 echo "existing=$ET with=$WITH without=$WITHOUT"
 if [ "$ET" = 0 ] && [ "$WITH" != 0 ] && [ "$WITHOUT" = 0 ]; then
   mkdir -p /verif/seeded/$NAME && cp "$OUT/patch.diff" "$OUT/demo_test.go" "$OUT/meta.json" /verif/seeded/$NAME/ && echo "CONFIRMED -> /verif/seeded/$NAME"
